@@ -2,8 +2,5 @@ package main
 
 import "fmt"
 
-func cmdCheck(args []string)    { fmt.Println("not implemented") }
-func cmdList(args []string)     { fmt.Println("not implemented") }
 func cmdRegex(args []string)    { fmt.Println("not implemented") }
-func cmdReplay(args []string)   { fmt.Println("not implemented") }
 func cmdSelftest(args []string) { fmt.Println("not implemented") }
